@@ -278,3 +278,20 @@ MANIFEST_TEXT["C13"] = dict(engine="E-input", design_ref="DESIGN.md §4 C13",
     technique="bounded exhaustive enumeration of file layouts (all pairs/triples of mappable values) x every 8-byte truncation x out-of-range offsets, on real files and real mmap, compared with the described content",
     level_text="Every pair (and many triples) of mappable values in one file, views at every structure start with tiling checked, every 8-byte truncation of every file, and six out-of-range offsets per view type.",
     level_note="Files with more than three structures and values outside the catalogue are not explored.")
+
+PROPS["C19"] = dict(
+    driver="c19", builds=["rel", "dbg"], level="model_checking",
+    rule="E-hist: for every bit sequence of <= N bits and 7 representatives (multi-block, long and short superblocks for ones and zeros, 200 000 bits) the graph of states (enabled subset of {rank, select, select_zero}, built|loaded) under the actions "
+         "enable_rank, enable_select, enable_select_zero, enable_pred_succ and serialize;load is explored to a fixpoint (all 16 states, 80 transitions) on the real BitVector. In every state: supports_* report exactly the subset (so loading reports "
+         "exactly what was written), the value == a freshly built vector with the same subset enabled and serializes identically, the bits are unchanged, every enabled query equals the reference; enabling twice leaves the value equal; every path that "
+         "reaches the full subset equals the fully enabled original. Composites: SparseVector files at every admissible low width and WaveletMatrix / WMCore files are written by the independent codec with NO support structures in any embedded "
+         "bitvector, and must load, equal the built value and answer all queries. skip_option over [optional, sentinel] for every catalogue value through readers of chunk size 1/3/7/8/9/4095/unbounded must leave the reader exactly at the sentinel; "
+         "absent_option writes absent_option_size() elements. Distinct = states + files + (value, chunk) pairs.",
+    bounds={"quick": "N=7 (255+7 bitvectors x 16 states), sparse files for all sets <= 6 bits x all widths, WM scopes (1,6) (2,4) (3,3) (4,2)", "thorough": "N=9, sparse <= 8 bits, WM scopes (1,8) (2,5) (3,4) (4,3), extended catalogue"},
+    require_counters={"quick": {"sparse_files_at_the_library_width": 10}, "thorough": {"sparse_files_at_the_library_width": 10}},
+    assumptions=[HOOK_ASSUMPTION, MODEL_ASSUMPTION, "the independent codec in harness/vcore/src/spec.rs (written from SERIALIZATION.md) produces the support-free files"],
+)
+MANIFEST_TEXT["C19"] = dict(engine="E-hist", design_ref="DESIGN.md §4 C19",
+    technique="explicit-state exploration to a fixpoint of the (support subset, built|loaded) graph on the real bitvector; support-free composite files produced by an independent codec; skip_option under short reads",
+    level_text="All 16 states and 80 transitions per bitvector for every bitvector up to 7/9 bits and multi-regime representatives; support-free sparse / wavelet-matrix files at every admissible parameter; skip_option for every catalogue value x 7 reader chunk sizes.",
+    level_note="The state graph is finite and explored completely; the input set is bounded as stated.")
